@@ -15,6 +15,8 @@ def jobs(tier):
         js += split(j, "variant", 7) if j["params"]["n"] >= 2 else [j]
     strata2 = [dict(name="v2000/S-shape", ns=[2, 3] + ([4] if t else []), pin={3: 3, 4: 6}, params=dict(K_m=1, K_r=1, crlf=False)),
                dict(name="v2000-crlf/S-shape", ns=[2, 3], pin={3: 3}, params=dict(K_m=1, K_r=0, crlf=True))]
+    strata2.append(dict(name="v2000/superseded-codes", ns=[2, 3] if t else [2], pin={3: 3}, params=dict(K_m=0, K_r=1, stale=True)))
+    strata2.append(dict(name="v2000/unrelated-lines", ns=[2, 3] if t else [2], pin={3: 3}, params=dict(K_m=1, K_r=1 if t else 0, unrelated=True)))
     strata2.append(dict(name="v2000/after-M-END", ns=[2, 3], pin={3: 3}, params=dict(K_m=1, K_r=0, after_end=True)))
     strata2.append(dict(name="v2000-codes/DT", ns=[2, 3] if t else [2], pin={3: 3}, params=dict(K_m=0, K_r=1, alphabet=["C", "D"], codes=True)))
     if not t:
@@ -30,7 +32,7 @@ def main(tier):
         "C06", tier, jobs(tier),
         bounds={"atoms": "all labelled graphs on n <= %d atoms (S-shape), n <= %d over {H, C, O, Br}; <= 1 mass and <= 1 radical label (symbolic values >= 1)" % ((4, 3) if t else (3, 2)),
                 "non-identity data (second rendering)": "file atom indices (any distinct positive integers), formal charge of every atom in [-15, 15] (explicit CHG=0 on the first atom only), bond type of every bond (any integer), atom-atom mapping number: all symbolic; plus one of: header/comment lines (80 chars, text containing V2000 / M  END / M  V30), one extra atom keyword (14), one extra bond keyword (4), a trailing COLLECTION/SGROUP/OBJ3D block, CRLF line ends, a coordinate from the boundary list, reversed property order",
-                "v2000": "coordinates, bond types (symbolic), bond stereo field, M  CHG charges (symbolic) or atom-block charge codes on every atom (incl. D atoms), header lines, CRLF, content after M  END (SD data items, a following record with M  ISO/RAD/CHG lines)"},
+                "v2000": "coordinates, bond types (symbolic), bond stereo field, M  CHG charges (symbolic) or atom-block charge codes on every atom (incl. D atoms), header lines, CRLF, atom-block charge codes 0..7 superseded by M  CHG lines, one unrelated line (M  STY, M  ALS, A, V, G, S  SKP, M  SAL, M  RGP) at every position of the property block, content after M  END (SD data items, a following record with M  ISO/RAD/CHG lines)"},
         assumptions=["renderings by REF-V3000 / REF-V2000, independent of tucan", "z3 decides every branch on symbolic fields; per-path concrete replay"],
         stubs=["module attribute `int`/`float` of the two reader modules shadowed to map a placeholder back to its term"],
         outside=["more than one variant at a time", "n > 4"],
